@@ -16,7 +16,7 @@
 (* and, when they desynchronise model and implementation, the rest of that  *)
 (* history is skipped (dead) until the next Reset.                          *)
 (***************************************************************************)
-EXTENDS FatApi, FatInv, Json, IOUtils, TLC
+EXTENDS FatApi, FatInv, Lfn, Json, IOUtils, TLC
 
 Rec == ndJsonDeserialize(IOEnv.TRACE)
 
@@ -32,10 +32,11 @@ VARIABLES
   flt,    \* a device fault happened inside the call in flight
   fltd,   \* a device fault or crash happened in this history (C05/C16 quantify over fault-free ones)
   dead,   \* model and implementation desynchronised: skip until next Reset
+  lenient, \* the image is deliberately malformed (C17 listing robustness): only results are checked, not the structure
   wfseen, \* structural defects already reported in this history (a leak persists: report it once)
   viol    \* set of <<line, property, tag>>
 
-tvars == <<l, hid, disk, disk0, pre, call, dur, minfo, flt, fltd, dead, wfseen, viol, dirs, ovols, odirs, ofiles, lim>>
+tvars == <<l, hid, disk, disk0, pre, call, dur, minfo, flt, fltd, dead, lenient, wfseen, viol, dirs, ovols, odirs, ofiles, lim>>
 
 NoCall == [op |-> "none"]
 IsEv(k) == l <= Len(Rec) /\ Rec[l].ev = k
@@ -86,9 +87,10 @@ TReset ==
         /\ dur' = [v \in 1..e.nvol |-> {}]
         /\ minfo' = [v \in 1..e.nvol |-> [f |-> -1, n |-> -1, free |-> 0, under |-> FALSE]]
         /\ hid' = e.hid
+        /\ lenient' = (e.chk = "listing")
         /\ lim' = [d |-> e.lim[1], f |-> e.lim[2], v |-> e.lim[3]]
         /\ viol' = LET bad == {v \in 1..e.nvol : WellFormedWhy(ds[v], {}) # "ok"} IN
-                   IF bad = {} THEN viol
+                   IF bad = {} \/ e.chk = "listing" THEN viol
                    ELSE IF PrintT(<<"BADIMAGE", e.hid, l, {WellFormedWhy(ds[v], {}) : v \in bad}>>) THEN viol ELSE viol
   /\ ovols' = <<>> /\ odirs' = <<>> /\ ofiles' = <<>>
   /\ call' = NoCall /\ flt' = FALSE /\ fltd' = FALSE /\ dead' = FALSE /\ wfseen' = {}
@@ -121,7 +123,7 @@ TCall ==
                  THEN LET r == RecOf(odirs, a.d) IN [dur EXCEPT ![r.vol] = {x \in @ : ~(x.dir = r.id /\ x.n = a.nm)}]
             ELSE dur
   /\ l' = l + 1
-  /\ UNCHANGED <<hid, disk, disk0, minfo, fltd, dead, wfseen, viol, apiVars>>
+  /\ UNCHANGED <<lenient, hid, disk, disk0, minfo, fltd, dead, wfseen, viol, apiVars>>
 
 \* ------------------------------------------------------------------ C04: WriteLegal
 \* position and slot of the live entry `n` of directory `id` on medium d ([b,i,sl]); b = -1 if absent
@@ -214,12 +216,12 @@ TW ==
   /\ LET e == Rec[l]  v == e.vol IN
      IF v = 0
      THEN /\ viol' = Report({<<"C04", "WriteLegal", "outside-any-volume:" \o e.reg>>})
-          /\ UNCHANGED <<disk, minfo>>
+          /\ UNCHANGED <<lenient, disk, minfo>>
      ELSE LET d == disk[v]
               d2 == ApplyW(d, e)
               wl == IF "panicked" \in DOMAIN call.a THEN "ok" ELSE WriteLegalWhy(call, pre[v], d, e, v)
-              cs == CrashSafeWhy(d2, pre[v])
-              du == {r \in dur[v] : ~DurableOK(d2, r)}
+              cs == IF lenient THEN "ok" ELSE CrashSafeWhy(d2, pre[v])
+              du == IF lenient THEN {} ELSE {r \in dur[v] : ~DurableOK(d2, r)}
           IN /\ disk' = [disk EXCEPT ![v] = d2]
              \* a stale stored count that is smaller than the number of clusters taken since mount
              \* cannot be kept exact (it would have to go below zero): remember that it happened
@@ -229,13 +231,13 @@ TW ==
                              \cup (IF cs = "ok" THEN {} ELSE {<<"C10", "CrashSafe", cs \o ":" \o call.op>>})
                              \cup (IF du = {} THEN {} ELSE {<<"C09", "Durable", call.op>>}))
   /\ l' = l + 1
-  /\ UNCHANGED <<hid, disk0, pre, call, dur, flt, fltd, dead, wfseen, apiVars>>
+  /\ UNCHANGED <<lenient, hid, disk0, pre, call, dur, flt, fltd, dead, wfseen, apiVars>>
 
 TFail ==
   /\ IsEv("Fail") /\ ~dead
   /\ flt' = TRUE /\ fltd' = TRUE
   /\ l' = l + 1
-  /\ UNCHANGED <<hid, disk, disk0, pre, call, dur, minfo, dead, wfseen, viol, apiVars>>
+  /\ UNCHANGED <<lenient, hid, disk, disk0, pre, call, dur, minfo, dead, wfseen, viol, apiVars>>
 
 \* ------------------------------------------------------------------ library remount vs the specification's reading
 KindOfAttr(a) == IF (a \div 8) % 2 = 1 THEN "label" ELSE IF (a \div 16) % 2 = 1 THEN "dir" ELSE "file"
@@ -259,7 +261,7 @@ TRemount ==
         ELSE IF LibTree(lv) # AbsTree(disk[v]) THEN {<<"C02", "Remount", "library view differs from the independent reader">>}
         ELSE {} : v \in DOMAIN disk})
   /\ l' = l + 1
-  /\ UNCHANGED <<hid, disk, disk0, pre, call, dur, minfo, flt, fltd, dead, wfseen, apiVars>>
+  /\ UNCHANGED <<lenient, hid, disk, disk0, pre, call, dur, minfo, flt, fltd, dead, wfseen, apiVars>>
 
 LibHasDurable(lv, r) ==
   LET t == LibTree(lv) IN
@@ -279,7 +281,7 @@ TCrashMount ==
         : v \in DOMAIN disk})
   /\ fltd' = fltd
   /\ l' = l + 1
-  /\ UNCHANGED <<hid, disk, disk0, pre, call, dur, minfo, flt, dead, wfseen, apiVars>>
+  /\ UNCHANGED <<lenient, hid, disk, disk0, pre, call, dur, minfo, flt, dead, wfseen, apiVars>>
 
 \* ------------------------------------------------------------------ Return
 PanicProp(op) ==
@@ -316,6 +318,22 @@ EntryMatchesSlot(x, p) ==  \* x: DirEntry as reported, p: [b,i,sl]
 ListingMatches(ents, lst) ==
   Len(ents) = Len(lst) /\ \A i \in 1..Len(lst) : EntryMatchesSlot(ents[i], lst[i])
 
+\* --- C17: long names in a listing.  ents: reported entries (live short entries in order); slots: DirSlots
+LiveIdx(slots) == SelectSeq([k \in 1..Len(slots) |-> k], LAMBDA k : IsLive(slots[k].sl))
+LfnListingOK(ents, slots, buf) ==
+  LET li == LiveIdx(slots) IN
+  Len(ents) = Len(li) =>
+  \A i \in 1..Len(ents) :
+     ents[i].has =>
+       LET run == LfnFor(slots, li[i]) IN
+       (run.ok \/ run.mixed) /\ (run.ok => ents[i].lfn = BufferText(run.frags, buf))
+
+LfnFirstBad(ents, slots, buf) ==
+  LET li == LiveIdx(slots)
+      bad == {i \in 1..Len(ents) : ents[i].has /\ LET run == LfnFor(slots, li[i]) IN ~((run.ok \/ run.mixed) /\ (run.ok => ents[i].lfn = BufferText(run.frags, buf)))}
+      i == CHOOSE x \in bad : \A y \in bad : x <= y
+  IN <<i, ents[i].n, ents[i].lfn, LfnFor(slots, li[i])>>
+
 \* --- pending state of open files (C01/C03)
 FileDataP(f) == LET lst == dirs'[f.vol][f.dir] IN lst[CHOOSE k \in 1..Len(lst) : lst[k].n = f.n].data
 PendingOK(d, f) ==
@@ -334,6 +352,7 @@ ObsOK(obs) ==
                                /\ obs[j].eof = (f.off = Len(data))
 
 StateChecks(op, obs, fateq) ==
+  IF lenient THEN {} ELSE
   UNION {
     LET d == disk[v]
         wf == WellFormedWhy(d, PendHeads(v))
@@ -448,6 +467,8 @@ TRet ==
                 /\ viol' = Report(StateChecks(op, e.obs, e.fateq)
                      \cup (IF ok /\ ~ListingMatches(r.v.ents, Listing(disk[v], RecOf(odirs, a.d).id))
                            THEN {<<"C06", "Listing", "iteration differs from the live entries in slot order">>} ELSE {})
+                     \cup (IF ok /\ op = "iterate_lfn" /\ ~LfnListingOK(r.v.ents, DirSlots(disk[v], RecOf(odirs, a.d).id), a.buf)
+                           THEN {<<"C17", "LfnListing", "a long name was reported without a complete, ordered, checksum-matching run in front of the entry (or with another text): entry " \o ToString(LfnFirstBad(r.v.ents, DirSlots(disk[v], RecOf(odirs, a.d).id), a.buf))>>} ELSE {})
                      \cup (IF ok /\ \E i \in 1..Len(r.v.probe) : r.v.probe[i].e # "LockError"
                            THEN {<<"C08", "Reentrant", "a call from inside the callback did not fail with LockError">>} ELSE {})
                      \cup (IF disk # pre THEN {<<"C08", "Refused", "iteration wrote">>} ELSE {}))
@@ -595,7 +616,7 @@ TRet ==
   /\ dead' = \E t \in (viol' \ viol) : t[3] \in DesyncTags
   /\ wfseen' = wfseen \cup {<<x, WellFormedWhy(disk[x], PendHeads(x)), Orphans(disk[x])>> : x \in DOMAIN disk}
   /\ l' = l + 1
-  /\ UNCHANGED <<hid, disk, disk0, pre, fltd>>
+  /\ UNCHANGED <<lenient, hid, disk, disk0, pre, fltd>>
 
 \* a panic is a violation wherever a panic may not happen; the history ends there
 TRetPanic ==
@@ -603,7 +624,7 @@ TRetPanic ==
   /\ viol' = Report({<<PanicProp(call.op), "Panic", call.op \o ":" \o Rec[l].r.e>>})
   /\ dead' = TRUE /\ call' = NoCall /\ flt' = FALSE
   /\ l' = l + 1
-  /\ UNCHANGED <<hid, disk, disk0, pre, dur, minfo, fltd, wfseen, apiVars>>
+  /\ UNCHANGED <<lenient, hid, disk, disk0, pre, dur, minfo, fltd, wfseen, apiVars>>
 
 \* a faulted call (C11): it must report an error; afterwards the involved objects are re-read
 \* from the medium (their state after a failed call is not prescribed), everything else must be
@@ -614,13 +635,13 @@ TRetFault ==
   /\ dead' = TRUE   \* continuation after a fault: see FatFault.tla
   /\ call' = NoCall /\ flt' = FALSE
   /\ l' = l + 1
-  /\ UNCHANGED <<hid, disk, disk0, pre, dur, minfo, fltd, wfseen, apiVars>>
+  /\ UNCHANGED <<lenient, hid, disk, disk0, pre, dur, minfo, fltd, wfseen, apiVars>>
 
 \* skipping the rest of a dead history
 TSkip ==
   /\ dead /\ l <= Len(Rec) /\ Rec[l].ev # "Reset"
   /\ l' = l + 1
-  /\ UNCHANGED <<hid, disk, disk0, pre, call, dur, minfo, flt, fltd, dead, wfseen, viol, apiVars>>
+  /\ UNCHANGED <<lenient, hid, disk, disk0, pre, call, dur, minfo, flt, fltd, dead, wfseen, viol, apiVars>>
 
 TDone ==
   /\ l = Len(Rec) + 1
@@ -629,7 +650,7 @@ TDone ==
 
 TInit ==
   /\ l = 1 /\ hid = "" /\ disk = <<>> /\ disk0 = <<>> /\ pre = <<>> /\ call = NoCall
-  /\ dur = <<>> /\ minfo = <<>> /\ flt = FALSE /\ fltd = FALSE /\ dead = FALSE /\ wfseen = {} /\ viol = {}
+  /\ dur = <<>> /\ minfo = <<>> /\ flt = FALSE /\ fltd = FALSE /\ dead = FALSE /\ lenient = FALSE /\ wfseen = {} /\ viol = {}
   /\ dirs = <<>> /\ ovols = <<>> /\ odirs = <<>> /\ ofiles = <<>> /\ lim = [d |-> 0, f |-> 0, v |-> 0]
 
 TNext == TReset \/ TCall \/ TW \/ TFail \/ TRemount \/ TCrashMount \/ TRet \/ TRetPanic \/ TRetFault \/ TSkip \/ TDone
